@@ -200,38 +200,94 @@ def loop_domain_covers(ck, prog, fi, loop, rule="R2"):
                 not bad, found=f"index array / visited: {bad[:2]}", nontrivial=True)
 
 
+def predictor_model(prog, tmids, span, rphases, polys):
+    """A PhasePredictor stand-in: column access by name, everything else the package's own code."""
+    from ..values import PyFuncV
+    cols = {"tmid": NdArr((len(tmids),), [Num(t / Hz, kind="time") for t in tmids]), "span": Num(span / Hz, kind="quantity"),
+            "rphase": NdArr((len(rphases),), [Num(r) for r in rphases]), "poly": ListV(list(polys))}
+    pred = ObjV(prog.cls("PhasePredictor"), {"_intervals": NONE})
+    pred.attrs["__getitem__"] = PyFuncV(lambda ev_, a, k, fr_, nd: cols[a[0].s], "column")
+    pred.attrs["__len__"] = len(tmids)
+    return pred
+
+
+def eval_with_index(prog, fi, pred, times, index, dt, args=(), kwargs=None):
+    """Evaluate a prediction method with _get_index_and_dt replaced by a given (index, dt): the rule under test is what the
+    method does with them.  Returns (result, from_angles log, evaluator)."""
+    from ..phasemodel import phase_evaluator, PhaseLog
+    log = PhaseLog()
+    ev = phase_evaluator(prog, log)
+    ev.overrides["pulsarbat.pulsar.predictor.PhasePredictor._get_index_and_dt"] = lambda e_, a, k, nd, fr_, fn: TupleV([index, dt])
+    res = ev.call(fi, [times] + list(args), dict(kwargs or {}), self_val=pred)
+    return res, log, ev
+
+
 def r2(ck, prog, run):
     call = prog.func("PhasePredictor.__call__")
     f0 = prog.func("PhasePredictor.f0")
     ta = prog.func("PhasePredictor.time_at")
     for f in (call, f0, ta):
         run.touched(f)
-    lp = sibling_branches(ck, prog, call, ["ph1", "ph2"])
-    if lp is not None:
-        loop_domain_covers(ck, prog, call, lp)
-    lp = sibling_branches(ck, prog, f0, ["f"])
-    if lp is not None:
-        loop_domain_covers(ck, prog, f0, lp)
-    # result of __call__: Phase built from the two parts separately
-    rets = [s for s in ast.walk(call.node) if isinstance(s, ast.Return) and s.value is not None]
-    ok = len(rets) == 1 and isinstance(rets[0].value, ast.Call) and norm(rets[0].value.func).endswith("Phase") and [norm(a) for a in rets[0].value.args] == ["ph1", "ph2"]
-    ck.same("R2", call.where, norm(rets[0]) if rets else "return", "the integer reference phase and the polynomial value are handed to Phase as two separate parts",
-            ok, found=norm(rets[0]) if rets else None, nontrivial=True)
-    # f0: derivative order and unit exponent agree
-    derivs = [c for c in ast.walk(f0.node) if isinstance(c, ast.Call) and isinstance(c.func, ast.Attribute) and c.func.attr == "deriv"]
-    orders = {norm(c.args[0]) if c.args else "1" for c in derivs}
-    units = [s for s in ast.walk(f0.node) if isinstance(s, ast.Assign) and norm(s.targets[0]) == "unit"]
-    uexp = None
-    if units and isinstance(units[0].value, ast.BinOp) and isinstance(units[0].value.op, ast.Div) and isinstance(units[0].value.right, ast.BinOp) \
-            and isinstance(units[0].value.right.op, ast.Pow):
-        uexp = norm(units[0].value.right.right)
-        ubase = norm(units[0].value.left) + "/" + norm(units[0].value.right.left)
-    ck.same("R2", f0.where, f"deriv({sorted(orders)}) and unit {norm(units[0].value) if units else '?'}",
-            "the n-th frequency derivative is the (n+1)-th derivative of the phase polynomial and carries cycle/s^(n+1)",
-            len(orders) == 1 and uexp is not None and orders == {uexp} and uexp.replace(" ", "") in ("n+1", "1+n") and ubase == "u.cycle/u.s",
-            found=f"orders {orders}, unit exponent {uexp}", nontrivial=True)
-    # time_at: func and fprime use the same argument; guard before root finding
-    inner = {s.name: s for s in ta.node.body if isinstance(s, ast.FunctionDef)}
+    x = PolyV.X
+    nent = 4
+    polys = [PolyV([sp.Symbol(f"c{e}_{k}", real=True) for k in range(4)]) for e in range(nent)]
+    rph = [sp.Symbol(f"r{e}", integer=True) for e in range(nent)]
+    pred = predictor_model(prog, [sp.Symbol(f"tm{e}", real=True) for e in range(nent)], sp.Integer(5400), rph, polys)
+    d = sp.Symbol("d", real=True)
+    # ---- scalar times
+    for e in (0, 2):
+        tsc = Num(sp.Symbol("t", real=True) / Hz, kind="time", shape=())
+        r = ck.attempt("R2", call.where, f"predictor(t) for a scalar time in entry {e}", "evaluates",
+                       lambda: eval_with_index(prog, call, pred, tsc, Num(e), Num(d)))
+        if r is not None:
+            res, log, ev = r
+            fa = [ev_[1] for ev_ in log.events if ev_[0] == "from_angles"]
+            ok = len(fa) == 1 and isinstance(fa[0]["phase1"], Num) and isinstance(fa[0]["phase2"], Num) \
+                and sp.simplify(fa[0]["phase1"].expr - rph[e] * 2 * sp.pi) == 0 and sp.simplify(fa[0]["phase2"].expr - polys[e].expr(d) * 2 * sp.pi) == 0
+            ck.same("R2", call.where, f"predictor(t), scalar, entry {e}", "the Phase is built from the entry's integer reference phase and its polynomial at dt, as two separate parts",
+                    ok, found=str([{k: str(v)[:60] for k, v in a.items() if k in ("phase1", "phase2")} for a in fa]), nontrivial=True)
+        for n_ in (0, 1, 2):
+            r = ck.attempt("R2", f0.where, f"f0(t, n={n_}) scalar, entry {e}", "evaluates", lambda: eval_with_index(prog, f0, pred, tsc, Num(e), Num(d), kwargs={"n": Num(n_)}))
+            if r is not None:
+                res = r[0]
+                exp = sp.diff(polys[e].expr(x), x, n_ + 1).subs(x, d) * 2 * sp.pi * Hz ** (n_ + 1)
+                ck.eq("R2", f0.where, f"f0(t, n={n_}) scalar, entry {e}", "the (n+1)-th derivative of the phase polynomial at dt, in cycle/s^(n+1)",
+                      res.expr if isinstance(res, Num) else sp.Symbol("none"), exp)
+    # ---- array times: every element must be evaluated with the polynomial of ITS entry, for any order of the index array
+    for idxs in ([0, 1, 0], [2, 0, 1], [1, 1], [3, 0, 0, 3], [2]):
+        nt = len(idxs)
+        times = NdArr((nt,), [Num(sp.Symbol(f"t{k}", real=True) / Hz, kind="time") for k in range(nt)])
+        index = NdArr((nt,), [Num(v) for v in idxs])
+        dts = NdArr((nt,), [Num(sp.Symbol(f"d{k}", real=True)) for k in range(nt)])
+        r = ck.attempt("R2", call.where, f"predictor(times) with entry indices {idxs}", "evaluates", lambda: eval_with_index(prog, call, pred, times, index, dts))
+        if r is not None:
+            res, log, ev = r
+            fa = [ev_[1] for ev_ in log.events if ev_[0] == "from_angles"]
+            ok = len(fa) == 1 and isinstance(fa[0]["phase1"], NdArr) and isinstance(fa[0]["phase2"], NdArr) and len(fa[0]["phase1"].items) == nt
+            bad = []
+            if ok:
+                for k, e in enumerate(idxs):
+                    p1, p2 = fa[0]["phase1"].items[k].expr, fa[0]["phase2"].items[k].expr
+                    if sp.simplify(p1 - rph[e] * 2 * sp.pi) != 0 or sp.simplify(p2 - polys[e].expr(sp.Symbol(f"d{k}", real=True)) * 2 * sp.pi) != 0:
+                        bad.append((k, e, str(p1)[:30], str(p2)[:50]))
+            ck.same("R2", call.where, f"predictor(times), entry indices {idxs}", "element k gets the reference phase and the polynomial of its own entry at its own dt "
+                    "(same expression as the scalar branch; every entry index that occurs is visited, in any order)", ok and not bad,
+                    found=str(bad[:2]) if ok else str([{k: str(v)[:40] for k, v in a.items()} for a in fa])[:200], nontrivial=True)
+        r = ck.attempt("R2", f0.where, f"f0(times) with entry indices {idxs}", "evaluates", lambda: eval_with_index(prog, f0, pred, times, index, dts))
+        if r is not None:
+            res = r[0]
+            bad = []
+            if isinstance(res, NdArr) and len(res.items) == nt:
+                for k, e in enumerate(idxs):
+                    exp = sp.diff(polys[e].expr(x), x, 1).subs(x, sp.Symbol(f"d{k}", real=True)) * 2 * sp.pi * Hz
+                    if sp.simplify(res.items[k].expr - exp) != 0:
+                        bad.append((k, e, str(res.items[k].expr)[:60]))
+            else:
+                bad.append(("shape", repr(res)[:80]))
+            ck.same("R2", f0.where, f"f0(times), entry indices {idxs}", "element k is the derivative of its own entry's polynomial at its own dt", not bad,
+                    found=str(bad[:2]), nontrivial=True)
+    # time_at: func and fprime use the same argument; the root of (prediction - phase) is sought
+    inner = {s_.name: s_ for s_ in ta.node.body if isinstance(s_, ast.FunctionDef)}
     if {"func", "fprime"} <= set(inner):
         def call_arg(fn, attr):
             for c in ast.walk(fn):
@@ -240,11 +296,11 @@ def r2(ck, prog, run):
                         return norm(c.args[0])
             return None
         a1, a2 = call_arg(inner["func"], "__call__"), call_arg(inner["fprime"], "f0")
-        ck.same("R2", ta.where, f"func: self({a1}) / fprime: self.f0({a2})", "the function and its derivative handed to the root finder are evaluated at the same time argument",
-                a1 is not None and a1 == a2, found=f"{a1} vs {a2}", nontrivial=True)
-        sub = [s for s in ast.walk(inner["func"]) if isinstance(s, ast.BinOp) and isinstance(s.op, ast.Sub)]
-        ck.same("R2", ta.where, "func: predicted - requested phase", "the root of (prediction - phase) is sought (a two-part Phase subtraction)",
-                any(norm(s.right) == "phase" for s in sub), found=str([norm(s) for s in sub]))
+        if a1 is None or a2 is None:
+            ck.unk("R2", ta.where, "func / fprime", "both evaluate the predictor at a time argument", f"{a1} / {a2}")
+        else:
+            ck.same("R2", ta.where, f"func: self({a1}) / fprime: self.f0({a2})", "the function and its derivative handed to the root finder are evaluated at the same time argument",
+                    a1 == a2, found=f"{a1} vs {a2}", nontrivial=True)
     else:
         ck.unk("R2", ta.where, "func / fprime", "time_at defines the function and its derivative for the root finder", str(sorted(inner)))
 
@@ -341,25 +397,40 @@ def r3(ck, prog, run):
 
 # ---------------------------------------------------------------------------------------- R4 intervals
 def r4(ck, prog, run):
+    """`intervals` evaluated on concrete predictor tables (exact rational times): spans are tmid -/+ span/2 and are merged exactly
+    when they overlap or touch within 1 ms."""
     iv = prog.getter("PhasePredictor", "intervals")
     run.touched(iv)
-    asg = {norm(s.targets[0]): s.value for s in ast.walk(iv.node) if isinstance(s, ast.Assign) and len(s.targets) == 1}
-    def form(v, op):
-        return isinstance(v, ast.BinOp) and isinstance(v.op, op) and norm(v.left) == "self['tmid']" and norm(v.right).replace(" ", "") == "self['span']/2"
-    ck.same("R4", iv.where, f"tstart = {norm(asg.get('tstart'))if 'tstart' in asg else '?'}; tstop = {norm(asg.get('tstop')) if 'tstop' in asg else '?'}",
-            "every span is [tmid - span/2, tmid + span/2]", form(asg.get("tstart"), ast.Sub) and form(asg.get("tstop"), ast.Add), nontrivial=True)
-    conds = [s.test for s in ast.walk(iv.node) if isinstance(s, ast.If) and "isclose" in norm(s.test)]
-    ok = False
-    found = None
-    if len(conds) == 1 and isinstance(conds[0], ast.BoolOp) and isinstance(conds[0].op, ast.Or) and len(conds[0].values) == 2:
-        a, b = conds[0].values
-        found = norm(conds[0])
-        ov = isinstance(a, ast.Compare) and norm(a).replace(" ", "") in ("next_end>=start", "start<=next_end")
-        tol = isinstance(b, ast.Call) and norm(b.func) in ("start.isclose", "next_end.isclose") and len(b.args) == 2 \
-            and norm(b.args[1]).replace(" ", "") in ("1*u.ms", "u.ms", "1.0*u.ms", "u.ms*1")
-        ok = ov and tol
-    ck.same("R4", iv.where, f"merge condition: {found}", "two spans are merged exactly when they overlap or touch, with the literal 1 ms tolerance", ok, found=found,
-            nontrivial=True)
+    M = 60
+    ms = sp.Rational(1, 1000)
+    cases = [
+        ("single entry", [0], 90 * M, [(-45 * M, 45 * M)]),
+        ("three touching spans", [0, 90 * M, 180 * M], 90 * M, [(-45 * M, 225 * M)]),
+        ("a gap of one span", [0, 90 * M, 270 * M], 90 * M, [(-45 * M, 135 * M), (225 * M, 315 * M)]),
+        ("overlapping spans", [0, 30 * M, 400 * M], 90 * M, [(-45 * M, 75 * M), (355 * M, 445 * M)]),
+        ("gap of half a millisecond (within tolerance)", [0, 90 * M + ms / 2], 90 * M, [(-45 * M, 135 * M + ms / 2)]),
+        ("gap of two milliseconds (outside tolerance)", [0, 90 * M + 2 * ms], 90 * M, [(-45 * M, 45 * M), (45 * M + 2 * ms, 135 * M + 2 * ms)]),
+        ("entries given out of order", [180 * M, 0, 90 * M], 90 * M, [(-45 * M, 225 * M)]),
+        ("two separate groups", [0, 90 * M, 1000 * M, 1090 * M], 90 * M, [(-45 * M, 135 * M), (955 * M, 1135 * M)]),
+    ]
+    for label, tmids, span, want in cases:
+        pred = predictor_model(prog, [sp.sympify(t) for t in tmids], sp.sympify(span), [0] * len(tmids), [PolyV([0])] * len(tmids))
+        ev = Evaluator(prog)
+        got = ck.attempt("R4", iv.where, f"intervals [{label}]", "evaluates on a concrete table", lambda: ev.getattr(pred, "intervals", Frame(ev, None, None, {}, 0)), ev=ev)
+        if got is None:
+            continue
+        try:
+            pairs = []
+            for it in ev.iterate(got):
+                a, b = ev.iterate(it)
+                pairs.append((sp.simplify(a.expr * Hz), sp.simplify(b.expr * Hz)))
+            ok = len(pairs) == len(want) and all(sp.simplify(p[0] - w[0]) == 0 and sp.simplify(p[1] - w[1]) == 0 for p, w in zip(pairs, want))
+            found = str([(str(p[0]), str(p[1])) for p in pairs])
+        except Exception as e:  # noqa
+            ok, found = None, f"result not understood: {e}"
+        run.ob("R4", iv.where, f"intervals [{label}: TMIDs {[str(t) for t in tmids]} s, span {span} s]",
+               "validity intervals are the spans tmid -/+ span/2, merged exactly where they overlap or touch (1 ms tolerance), in time order",
+               ok, found=found, expected=str([(str(sp.sympify(w[0])), str(sp.sympify(w[1]))) for w in want]), nontrivial=True)
 
 
 # ---------------------------------------------------------------------------------------- R5 table is never written by predictions
